@@ -58,7 +58,7 @@ func c04Token(o core.Object, err error) int {
 func init() {
 	props["C04"] = func(r *Run, rng *RNG) {
 		thorough := r.Tier == "thorough"
-		r.Rule = "revision histories of 1..4 revisions over 1..8 object numbers: each revision puts (as dictionary, integer, stream with direct length, stream with an indirect length object; stream bodies of 20..9000 bytes) or deletes a random subset; per revision a classic cross-reference table or a cross-reference stream (plain or Flate, widths [1 4 2], [1 3 1], [2 8 2] or [0 4 2] where no entry needs a type), in stream revisions non-stream objects packed into one or two object streams; lookups: 10..16 operations drawn from all object numbers incl. never-defined ones, the length objects, the object streams and cross-reference streams, with repeats and cache clears, each history also with the reversed order of lookups. non-trivial = at least 2 revisions"
+		r.Rule = "revision histories of 1..4 revisions over 1..8 object numbers: each revision puts (as dictionary, integer, stream with direct length, stream with an indirect length object; stream bodies of 20..9000 bytes) or deletes a random subset; per revision a classic cross-reference table or a cross-reference stream (plain or Flate, widths [1 4 2], [1 3 1], [2 8 2] or [0 4 2] where no entry needs a type), in stream revisions non-stream objects packed into one or two object streams; lookups: 10..16 operations drawn from all object numbers incl. never-defined ones, the length objects, the object streams and cross-reference streams, with repeats and cache clears, each history also with the reversed order of lookups, and with every object looked up once in ascending and once in descending order. non-trivial = at least 2 revisions"
 		n := 150
 		if thorough {
 			n = 4000
@@ -264,9 +264,14 @@ func init() {
 					ops = append(ops, cand[rng.Intn(len(cand))])
 				}
 			}
-			for pass := 0; pass < 2; pass++ {
+			for pass := 0; pass < 4; pass++ {
 				seq := append([]int{}, ops...)
-				if pass == 1 {
+				if pass >= 2 {
+					// every object once, in ascending and in descending order: for any two objects
+					// one of the passes asks for the one before the other
+					seq = append([]int{}, cand...)
+				}
+				if pass%2 == 1 {
 					for i, j := 0, len(seq)-1; i < j; i, j = i+1, j-1 {
 						seq[i], seq[j] = seq[j], seq[i]
 					}
